@@ -253,6 +253,23 @@ pub struct Case {
     pub what: What,
     pub ops: Vec<Op>,
     pub tag: u64,
+    /// value witness: the key material is searched (with R1) until the secret under observation has a
+    /// special shape: 1 contains a 00 byte, 2 bytes XOR to 00, 3 first byte 00, 4 last byte 00,
+    /// 5 bytes sum to 0 mod 256, 6 contains an ff byte; 0 = no constraint
+    #[serde(default)]
+    pub witness: u8,
+}
+
+fn shape_ok(w: u8, v: &[u8]) -> bool {
+    match w {
+        0 => true,
+        1 => v.contains(&0),
+        2 => v.iter().fold(0u8, |a, b| a ^ b) == 0,
+        3 => v.first() == Some(&0),
+        4 => v.last() == Some(&0),
+        5 => v.iter().fold(0u8, |a, b| a.wrapping_add(*b)) == 0,
+        _ => v.contains(&0xff),
+    }
 }
 
 pub struct C16;
@@ -293,12 +310,25 @@ impl Part for C16 {
                 for what in [What::SenderCtx, What::ReceiverCtx] {
                     for ops in histories(cfg.tier.thorough()) {
                         tag += 1;
-                        v.push(Case { suite, mode, what: what.clone(), ops, tag });
+                        v.push(Case { suite, mode, what: what.clone(), ops, tag, witness: 0 });
                     }
                 }
                 for what in [What::EncapSecret, What::DecapSecret] {
                     tag += 1;
-                    v.push(Case { suite, mode, what, ops: vec![], tag });
+                    v.push(Case { suite, mode, what, ops: vec![], tag, witness: 0 });
+                }
+            }
+        }
+        // value witnesses (cheap KEMs only: each needs up to a few thousand R1 encapsulations)
+        for suite in all_suites() {
+            let cheap = matches!(suite.kem, crate::refmodel::Kem::X25519 | crate::refmodel::Kem::P256);
+            if !cheap || !(suite.aead == crate::refmodel::Aead::ChaCha20Poly1305 || (cfg.tier.thorough() && suite.aead == crate::refmodel::Aead::Aes128Gcm)) {
+                continue;
+            }
+            for witness in 1..=6u8 {
+                for (mode, what) in [(Mode::Base, What::EncapSecret), (Mode::Auth, What::DecapSecret), (Mode::Base, What::SenderCtx), (Mode::Psk, What::ReceiverCtx)] {
+                    tag += 1;
+                    v.push(Case { suite, mode, what, ops: vec![Op::Msg], tag, witness });
                 }
             }
         }
@@ -306,17 +336,43 @@ impl Part for C16 {
     }
     fn run(&self, cfg: &Cfg, c: &Case) -> CaseOut {
         let mut out = CaseOut::new();
-        out.outcome = format!("{:?}/{}", c.what, c.suite.aead.name());
+        out.outcome = format!("{:?}/{}{}", c.what, c.suite.aead.name(), if c.witness > 0 { "/value-witness" } else { "" });
         let ops = suite_ops(c.suite);
-        let k = keys(c.suite.kem, c.tag, cfg.seed);
         let info = bytes(Fill::Mix, 20, 10, cfg.seed);
         let psk = bytes(Fill::Mix, 32, 11, cfg.seed);
         let psk_id = bytes(Fill::Mix, 22, 12, cfg.seed);
-        let m = mode_spec(c.mode, &k, &psk, &psk_id);
-        let (enc, mut ref_s) = match r1_setup_s(c.suite, &m, &k.pk_r, &info, &k.ikm_e) {
+        let mut k = keys(c.suite.kem, c.tag, cfg.seed);
+        let mut m = mode_spec(c.mode, &k, &psk, &psk_id);
+        let mut found = None;
+        for attempt in 0..6000u64 {
+            if attempt > 0 {
+                k = keys(c.suite.kem, c.tag + 100_000 * attempt, cfg.seed);
+                m = mode_spec(c.mode, &k, &psk, &psk_id);
+            }
+            let r = match r1_setup_s(c.suite, &m, &k.pk_r, &info, &k.ikm_e) {
+                Some(x) => x,
+                None => {
+                    out.fail("R1 setup failed (reference bug)");
+                    return out;
+                }
+            };
+            let observed: Vec<u8> = match c.what {
+                What::SenderCtx | What::ReceiverCtx => r.1.exporter_secret.clone(),
+                _ => {
+                    let (sk_e, _, _) = c.suite.kem.derive_keypair(&k.ikm_e);
+                    let auth = if c.mode.has_auth() { Some(&k.sk_s[..]) } else { None };
+                    c.suite.kem.encap(&k.pk_r, auth, &sk_e).map(|x| x.0).unwrap_or_default()
+                }
+            };
+            if shape_ok(c.witness, &observed) {
+                found = Some(r);
+                break;
+            }
+        }
+        let (enc, mut ref_s) = match found {
             Some(x) => x,
             None => {
-                out.fail("R1 setup failed (reference bug)");
+                out.fail("no value witness found in 6000 tries (machinery)");
                 return out;
             }
         };
